@@ -107,6 +107,7 @@ func installFaults(f *faultSpec, failRoots map[string]bool) func() {
 	if f.lockStateFail {
 		lockStateFail.Store(true)
 	}
+	rulesShort.Store(int64(f.rulesShort))
 	var mu sync.Mutex
 	fetches := 0
 	shut := false
@@ -155,6 +156,7 @@ func installFaults(f *faultSpec, failRoots map[string]bool) func() {
 	return func() {
 		verifhook.SetHandler(baseHandler)
 		lockStateFail.Store(false)
+		rulesShort.Store(0)
 		if blockedFlag != nil {
 			atomic.StoreInt32(blockedFlag, 0)
 		}
@@ -467,6 +469,9 @@ func (w *world) execCtx(ctx context.Context, f []string) string {
 	case "create":
 		pub, _, err := w.process.OnGenerate(ctx, creds(unhexStr(f[1]), ""), unhexStr(f[2]), []byte("pass"), 1, 1)
 		if err != nil || len(pub) == 0 {
+			if os.Getenv("DH_DEBUG") != "" {
+				fmt.Fprintln(os.Stderr, "create failed:", err)
+			}
 			return "err"
 		}
 		dynMu.Lock()
@@ -614,7 +619,18 @@ func runEngine(workdir string) {
 		case w.config(f):
 			continue
 		default:
-			res := w.exec(f)
+			// a watchdog per request: one that is not answered within two minutes never will be (the process ends so that the
+			// caller is not held up)
+			resCh := make(chan string, 1)
+			go func() { resCh <- w.exec(f) }()
+			var res string
+			select {
+			case res = <-resCh:
+			case <-time.After(opWatchdog):
+				fmt.Fprintln(out, "TIMEOUT request not answered within "+opWatchdog.String())
+				out.Flush()
+				os.Exit(3)
+			}
 			if os.Getenv("DH_POINTS") != "" {
 				point("reply.before")
 			}
@@ -654,6 +670,20 @@ func (w *world) fetchForTwin(ctx context.Context, a addr) (e2wtypes.Wallet, e2wt
 		return w.fetcher.FetchAccountByKey(ctx, a.key)
 	}
 	return w.fetcher.FetchAccount(ctx, a.name)
+}
+
+// rulesShort k > 0: the signer's ruler hands back only the first k verdicts of what the real ruler decided.
+var rulesShort atomic.Int64
+
+// shortRuler is the ruler the signer is built with: dirk's own ruler, whose answer is cut while rulesShort is set.
+type shortRuler struct{ inner ruler.Service }
+
+func (r shortRuler) RunRules(ctx context.Context, credentials *checker.Credentials, action string, data []*ruler.RulesData) []rules.Result {
+	res := r.inner.RunRules(ctx, credentials, action, data)
+	if k := int(rulesShort.Load()); k > 0 && len(res) > k {
+		return res[:k]
+	}
+	return res
 }
 
 // lockStateFail: while set, accounts handed out by the fetcher answer IsUnlocked with an error.
@@ -702,3 +732,11 @@ func (a *flakyAccount) Wallet() e2wtypes.Wallet                       { return a
 func (a *flakyAccount) Sign(ctx context.Context, d []byte) (e2types.Signature, error) {
 	return a.s.Sign(ctx, d)
 }
+
+// opWatchdog bounds one sequential request (DH_OP_TIMEOUT_S overrides).
+var opWatchdog = func() time.Duration {
+	if v, err := strconv.Atoi(os.Getenv("DH_OP_TIMEOUT_S")); err == nil && v > 0 {
+		return time.Duration(v) * time.Second
+	}
+	return 120 * time.Second
+}()
